@@ -796,46 +796,59 @@ func (b *brHarness) faultSweep(op string) {
 		counts[k] = v
 	}
 	e.ctx = saved
-	for _, target := range brTargets[1:] {
-		for nth := 1; nth <= counts[target] && nth <= 6; nth++ {
-			cctx, _ := saved.CacheContext()
-			e.ctx = cctx
-			e.fault.Reset(target, nth)
-			e.endBlock()
-			b.r.Stat("faultsweep.points")
-			places := map[int]int{}
-			pend := map[int]*big.Int{}
-			for tk := 1; tk <= b.nTok; tk++ {
-				pend[tk] = new(big.Int)
-			}
-			add := func(x obsTx, tok int) {
-				places[x.id]++
-				a, _ := new(big.Int).SetString(x.amount, 10)
-				tx, _ := new(big.Int).SetString(x.tax, 10)
-				if pend[tok] != nil {
-					pend[tok].Add(pend[tok], a).Add(pend[tok], tx)
+	defer func() { e.fault.Panic = false }()
+	for _, hard := range []bool{false, true} {
+		how := "failing"
+		if hard {
+			// the collaborator fails the hard way: it panics; the end-blocker recovers and the block goes on
+			how = "panicking"
+		}
+		for _, target := range brTargets[1:] {
+			for nth := 1; nth <= counts[target] && nth <= 6; nth++ {
+				cctx, _ := saved.CacheContext()
+				e.ctx = cctx
+				e.fault.Reset(target, nth)
+				e.fault.Panic = hard
+				e.endBlock()
+				e.fault.Panic = false
+				b.r.Stat("faultsweep.points")
+				if hard {
+					b.r.Stat("faultsweep.panic_points")
 				}
-			}
-			for _, x := range e.poolTxs() {
-				add(x, x.tok)
-			}
-			for _, bb := range e.batchList() {
-				for _, x := range bb.txs {
-					add(x, bb.tok)
+				places := map[int]int{}
+				pend := map[int]*big.Int{}
+				for tk := 1; tk <= b.nTok; tk++ {
+					pend[tk] = new(big.Int)
 				}
-			}
-			in := map[string]interface{}{"ops": append(append([]string{}, b.ops...), fmt.Sprintf("%s with the %d. %s call failing", op, nth, target))}
-			for id, n := range places {
-				if n > 1 {
-					b.r.Hit("exactly_one_place", fmt.Sprintf("transfer %d is in %d places after `%s` with the %d. call of %s failing", id, n, op, nth, target), in)
+				add := func(x obsTx, tok int) {
+					places[x.id]++
+					a, _ := new(big.Int).SetString(x.amount, 10)
+					tx, _ := new(big.Int).SetString(x.tax, 10)
+					if pend[tok] != nil {
+						pend[tok].Add(pend[tok], a).Add(pend[tok], tx)
+					}
 				}
-			}
-			for tk := 1; tk <= b.nTok; tk++ {
-				if esc := e.escrow(tk); esc.BigInt().Cmp(pend[tk]) != 0 {
-					b.r.Hit("escrow_eq_pending", fmt.Sprintf("token %d: escrow %s but pending transfers total %s after `%s` with the %d. call of %s failing", tk, esc, pend[tk], op, nth, target), in)
+				for _, x := range e.poolTxs() {
+					add(x, x.tok)
 				}
+				for _, bb := range e.batchList() {
+					for _, x := range bb.txs {
+						add(x, bb.tok)
+					}
+				}
+				in := map[string]interface{}{"ops": append(append([]string{}, b.ops...), fmt.Sprintf("%s with the %d. %s call %s", op, nth, target, how))}
+				for id, n := range places {
+					if n > 1 {
+						b.r.Hit("exactly_one_place", fmt.Sprintf("transfer %d is in %d places after `%s` with the %d. call of %s %s", id, n, op, nth, target, how), in)
+					}
+				}
+				for tk := 1; tk <= b.nTok; tk++ {
+					if esc := e.escrow(tk); esc.BigInt().Cmp(pend[tk]) != 0 {
+						b.r.Hit("escrow_eq_pending", fmt.Sprintf("token %d: escrow %s but pending transfers total %s after `%s` with the %d. call of %s %s", tk, esc, pend[tk], op, nth, target, how), in)
+					}
+				}
+				e.ctx = saved
 			}
-			e.ctx = saved
 		}
 	}
 }
